@@ -495,6 +495,19 @@ Proof.
                       w_out := w_out w |} (spec_close sp) rest) as (rs & A & B).
       { apply sim_closed; reflexivity. }
       exists rs. auto.
+    + assert (Hph : sp_phase sp = s_state (w_sess w)) by (destruct Hsim; assumption).
+      unfold is_open. destruct (s_state (w_sess w)) eqn:Es; rewrite Hph.
+      1-2: destruct (w_wfail w) eqn:Ew;
+        [ destruct (IH {| w_store := w_store w; w_sess := set_state (w_sess w) Closed; w_wfail := true;
+                          w_out := w_out w |} (spec_close sp) rest) as (rs & A & B);
+            [apply sim_closed; reflexivity|];
+          exists rs; cbn [w_out w_store w_wfail] in *; auto
+        | destruct (IH {| w_store := w_store w; w_sess := set_state (w_sess w) Closed; w_wfail := false;
+                          w_out := w_out w ++ [r_minus] |} (spec_close sp) rest) as (rs & A & B);
+            [apply sim_closed; reflexivity|];
+          exists (r_minus :: rs); cbn [w_out w_store w_wfail app] in *;
+          rewrite A, <- app_assoc; split; [reflexivity|exact B] ].
+      destruct (IH w sp rest Hsim) as (rs & A & B). exists rs. auto.
 Qed.
 
 (** The oracle accepts the model's own observation of every history: each reply the model
